@@ -473,7 +473,11 @@ pub fn sink_handle<E: Elem, Tr: ?Sized + TrSet, M2: MemB, H: AnyValueMut>(
         }
         SINK_SWAP => {
             let mut w = AnyValueWrapper::new(E::make(r.tags[0]));
-            lib(|| h.swap(&mut w));
+            if r.form == 0 {
+                lib(|| h.swap(&mut w));
+            } else {
+                lib(|| w.swap(&mut h));
+            }
             cx.ev.push(tag_of::<H, E>(&h));
             lib(|| drop(h));
             let x = lib(|| w.downcast::<E>()).expect("LIB: wrapper holds E");
@@ -728,7 +732,9 @@ pub fn get_step<E: Elem, Tr: ?Sized + TrSet, M: MemB>(v: &mut AnyVec<Tr, M>, r: 
             GET_GET => lib(|| tv.get(r.i)).map(|x| x.tag()),
             GET_AT => Some(lib(|| tv.at(r.i)).tag()),
             GET_GET_MUT => lib(|| tv.get_mut(r.i)).map(|x| x.tag()),
-            _ => Some(lib(|| tv.at_mut(r.i)).tag()),
+            GET_AT_MUT => Some(lib(|| tv.at_mut(r.i)).tag()),
+            GET_UNCHECKED => Some(lib(|| unsafe { tv.get_unchecked(r.i) }).tag()),
+            _ => Some(lib(|| unsafe { tv.get_unchecked_mut(r.i) }).tag()),
         };
         match got {
             None => cx.ev.push(Ev::NoneRet),
@@ -759,8 +765,20 @@ pub fn get_step<E: Elem, Tr: ?Sized + TrSet, M: MemB>(v: &mut AnyVec<Tr, M>, r: 
                 cx.ev.push(Ev::Bool(inspect_ok::<_, E>(&*e, seen)));
             }
         },
-        _ => {
+        GET_AT_MUT => {
             let e = lib(|| v.at_mut(r.i));
+            let seen = tag_of::<_, E>(&*e);
+            cx.ev.push(seen);
+            cx.ev.push(Ev::Bool(inspect_ok::<_, E>(&*e, seen)));
+        }
+        GET_UNCHECKED => {
+            let e = lib(|| unsafe { v.get_unchecked(r.i) });
+            let seen = tag_of::<_, E>(&*e);
+            cx.ev.push(seen);
+            cx.ev.push(Ev::Bool(inspect_ok::<_, E>(&*e, seen)));
+        }
+        _ => {
+            let e = lib(|| unsafe { v.get_unchecked_mut(r.i) });
             let seen = tag_of::<_, E>(&*e);
             cx.ev.push(seen);
             cx.ev.push(Ev::Bool(inspect_ok::<_, E>(&*e, seen)));
@@ -1147,6 +1165,18 @@ where
                 let h = lib(|| tw.pop()).expect("LIB: pop of a non-empty vector");
                 lib(|| v.push(h));
             }));
+            let left = lib(|| tw.len());
+            lib(|| drop(tw));
+            cx.ev.push(Ev::Len(left));
+            if let Err(p) = res {
+                std::panic::resume_unwind(p);
+            }
+        }
+        TP_PUSH_LAZY => {
+            // lazy clone of an element of a twin-typed vector (only reached in Cloneable worlds)
+            let mut tw: AnyVec<Tr, SimBuilder> = lib(|| AnyVec::new_in::<Twin<E>>(SimBuilder));
+            lib(|| tw.push(AnyValueWrapper::new(Twin(E::make(t)))));
+            let res = catch_unwind(AssertUnwindSafe(|| Tr::push_lazy_of_first::<SimBuilder, M>(&tw, v)));
             let left = lib(|| tw.len());
             lib(|| drop(tw));
             cx.ev.push(Ev::Len(left));
